@@ -19,6 +19,7 @@ import random
 import re
 import shutil
 import threading
+import time
 from fractions import Fraction
 
 from . import core
@@ -41,7 +42,7 @@ THETA_PROFILES = {
     "B": dict(MaxRecs=2, MaxItems=2, MaxParams=5, MaxEdits=2, Forms="{1, 2, 3, 4, 5}",
               LowKinds='{"none", "inf", "val", "eq"}', UpKinds='{"none", "mil", "val", "eq"}', Reps="{2, 3}",
               NameOpts="{TRUE, FALSE}", SpOpts="{1}", RepNames="TRUE", TailForms="{1, 3, 5}",
-              TailLowKinds='{"none", "val"}', TailUpKinds='{"none", "val"}', NEditVals=1, NSlices=24),
+              TailLowKinds='{"none", "val"}', TailUpKinds='{"none", "val"}', NEditVals=1, NSlices=120),
     # thorough: full square of two items, one edit, all kinds
     "TA": dict(MaxRecs=2, MaxItems=2, MaxParams=5, MaxEdits=1, Forms="{1, 2, 3, 4, 5}",
                LowKinds='{"none", "inf", "mil", "val", "eq"}', UpKinds='{"none", "inf", "mil", "val", "eq"}',
@@ -76,7 +77,7 @@ def _run_profile(module: str, name: str, consts: dict, invariants, actions, seed
     cfg = d / f"{module}_{name}.cfg"
     cfg.write_text(_cfg_text(consts, invariants))
     try:
-        res = core.run_tlc(SPEC / f"{module}.tla", cfg, workers=workers, timeout=3000)
+        res = core.run_tlc(SPEC / f"{module}.tla", cfg, workers=workers, timeout=3000, heap="3g")
     finally:
         shutil.rmtree(d, ignore_errors=True)
     out[(module, name)] = (res, consts)
@@ -87,14 +88,16 @@ def _tlc_all(tier: str, seed: int, v: core.Verdict):
     plan = []
     for n in (["A", "B"] if tier == "quick" else ["TA", "TB", "TC"]):
         plan.append(("Theta", n, THETA_PROFILES[n], ["NamesUnique", "BoundsOrdered", "WriteBackFaithful", "Frame", "EmitCase"], THETA_ACTIONS))
-    from .c04_omega import OMEGA_ACTIONS, OMEGA_INVARIANTS, OMEGA_PROFILES  # noqa: E402
+    from .c04_omega import OMEGA_ACTIONS, OMEGA_INVARIANTS, OMEGA_PROFILES, OMEGA_STRUCT_ACTIONS  # noqa: E402
 
-    for n in (["A", "B"] if tier == "quick" else ["TA", "TB", "TC"]):
-        plan.append(("Omega", n, OMEGA_PROFILES[n], OMEGA_INVARIANTS, OMEGA_ACTIONS))
+    for n in (["A", "B", "S"] if tier == "quick" else ["TA", "TB", "TC", "TS"]):
+        acts = OMEGA_ACTIONS + (OMEGA_STRUCT_ACTIONS if OMEGA_PROFILES[n]["Structural"] == "TRUE" else [])
+        plan.append(("Omega", n, OMEGA_PROFILES[n], OMEGA_INVARIANTS, acts))
     out: dict = {}
-    ths = [threading.Thread(target=_run_profile, args=(m, n, c, inv, acts, seed, out, 16 // max(1, len(plan) // 2))) for m, n, c, inv, acts in plan]
+    ths = [threading.Thread(target=_run_profile, args=(m, n, c, inv, acts, seed, out, 4)) for m, n, c, inv, acts in plan]
     for t in ths:
         t.start()
+        time.sleep(0.05)  # core.scratch names the TLC metadir by pid + millisecond: keep the starts apart
     for t in ths:
         t.join()
     cases = {"Theta": [], "Omega": []}
@@ -416,6 +419,7 @@ def _layout_feats_theta(case):
     return {
         "repeat_with_comment": any(it["rep"] > 1 and it["name"] for it in items),
         "has_repeat": any(it["rep"] > 1 for it in items),
+        "repeat_with_inf_upper": any(it["rep"] > 1 and it["uk"] in ("inf", "mil") for it in items),
         "n_items": len(items),
         "n_records": len(case["recs"]),
     }
@@ -463,7 +467,7 @@ def replay_theta(case):
         except core.MachineryError:
             raise
         except (ValueError, NotImplementedError) as ex:
-            out.append(("skip:refused:" + type(ex).__name__, base, None))
+            out.append(("skip:refused:" + type(ex).__name__, dict(base, refusal=f"{e['op']}: {str(ex)[:120]}"), None))
             return out
         except Exception as ex:
             bad(stepinfo, type(ex).__name__, f"{e['op']} raised {type(ex).__name__}: {str(ex)[:200]}")
@@ -494,11 +498,12 @@ def replay_theta(case):
                 + " | ".join(b.strip() for _, b in split_records(code, ('THE',))),
                 spell={"item": " ".join(missing), "has_inf_bound": it["lk"] in ("inf", "mil") or it["uk"] in ("inf", "mil"),
                        "alt_spelling": it["sp"] == 1, "in_repeat": it["rep"] > 1, "has_bounds": it["lk"] != "none"}, code=code)
-            failed = True
+            # a respelled item does not corrupt the model: the case goes on (the same finding may be hit again)
         if failed:
             return out
         m = m2
-    out.append(("ok", base, None))
+    if not out:
+        out.append(("ok", base, None))
     return out
 
 
@@ -552,7 +557,7 @@ def _run(tier, seed, v, cases):
     from . import c04_omega
 
     rng = random.Random(seed)
-    budget = {"quick": (1700, 1700), "thorough": (30000, 30000)}[tier]
+    budget = {"quick": (1500, 1500), "thorough": (30000, 30000)}[tier]
     th, n_th_strata = _stratified(cases["Theta"], _theta_stratum, budget[0], rng)
     om, n_om_strata = _stratified(cases["Omega"], c04_omega.stratum, budget[1], rng)
     work = [("Theta", c) for c in th] + [("Omega", c) for c in om]
